@@ -54,6 +54,8 @@ impl TxDependency {
         let mut state = self.dependent_state[index].lock();
         if state.onboard && state.dependency.is_none() {
             state.onboard = false;
+            #[cfg(feature = "verif")]
+            crate::verif::event(crate::verif::Event::DepClaim { txid: index, handoff: false });
             return Some(index)
         }
         None
@@ -84,6 +86,8 @@ impl TxDependency {
                 if dependent.onboard {
                     if pop_next && tx == txid + 1 && self.index.load(Ordering::Relaxed) > tx {
                         dependent.onboard = false;
+                        #[cfg(feature = "verif")]
+                        crate::verif::event(crate::verif::Event::DepClaim { txid: tx, handoff: true });
                         next = Some(tx);
                     } else {
                         #[cfg(feature = "verif")]
@@ -131,6 +135,8 @@ impl TxDependency {
         }
         if !state.onboard {
             state.onboard = true;
+            #[cfg(feature = "verif")]
+            crate::verif::event(crate::verif::Event::DepOnboard { txid });
         }
         #[cfg(feature = "verif")]
         crate::verif::point(crate::verif::pt::DEP_INDEX, txid);
@@ -167,11 +173,15 @@ impl TxDependency {
             state.dependency = Some(dep_id);
             if !state.onboard {
                 state.onboard = true;
+                #[cfg(feature = "verif")]
+                crate::verif::event(crate::verif::Event::DepOnboard { txid });
             }
 
             dep.insert(txid);
             if !dep_state.onboard {
                 dep_state.onboard = true;
+                #[cfg(feature = "verif")]
+                crate::verif::event(crate::verif::Event::DepOnboard { txid: dep_id });
             }
             #[cfg(feature = "verif")]
             crate::verif::point(crate::verif::pt::DEP_INDEX, dep_id);
@@ -184,6 +194,8 @@ impl TxDependency {
             let mut state = self.dependent_state[txid].lock();
             if !state.onboard {
                 state.onboard = true;
+                #[cfg(feature = "verif")]
+                crate::verif::event(crate::verif::Event::DepOnboard { txid });
                 state.dependency = None;
                 #[cfg(feature = "verif")]
                 crate::verif::point(crate::verif::pt::DEP_INDEX, txid);
